@@ -869,6 +869,19 @@ def columns_rule(ctx: Ctx) -> None:
            why="find() returns -1 when there is no comma, and the slice then silently drops the last character (single-measure note data)")
 
 
+def attach_tail_rule(ctx: Ctx) -> None:
+    """C09/C10: the joined note takes the place of its head in the buffer: the slot is found by looking the head up in the buffer as it is now."""
+    p = ctx.p
+    f = p.func("simfile.notes.group:group_notes.attach_tail")
+    h, t = f.param_names()[:2]
+    from .tables import Dec, closed_text, judge as tjudge, sums_of as tsums
+    sums = tsums(ctx, f)
+    want = (f"buffer[buffer.index({h})] = NoteWithTail(beat={h}.beat, column={h}.column, note_type={h}.note_type, tail_beat={t}.beat, player={h}.player, keysound_index={h}.keysound_index)",)
+    decs = [Dec(dict(s_.plain_assign()), tuple(closed_text(s_, e, keep=[h, t, "buffer"]) for e in s_.effects if e.kind in ("store", "aug", "delete", "expr")), s_) for s_ in sums]
+    tjudge(ctx, "R-REBUILD", f, "the head's slot in the buffer (found by searching the buffer for the head) is replaced by the joined note carrying the head's fields and the tail's beat", decs, [],
+           lambda a: want, why="a remembered position goes stale when notes leave or are removed from the buffer; the joined note must be emitted at the head's position, once")
+
+
 def keysound_extraction(ctx: Ctx) -> None:
     """C07/C08: _extract_keysound_indices: while the row has a '[': the number between the first '[' and the first ']' is recorded at column
     (position of the '[') - 1 whenever a list was given, and exactly that bracket group is removed; a row without '[' is returned as it is.
